@@ -382,6 +382,10 @@ def judge_conn(case, outs):
             fails.append("response %d is not a well-formed, completely framed HTTP response: %r" % (i, rest[:300]))
             return fails
         exp = expected_of(rq, app)
+        if not d["sd"] and i < served - 1:
+            fails.append("response %d is delimited by connection close but the connection was kept open: %d more response(s) follow"
+                         % (i, served - 1 - i))
+            return fails
         if d["code"] != exp["code"] or d["reason"] != exp["reason"]:
             fails.append("response %d: status %r %r, application said %r %r" % (i, d["code"], d["reason"], exp["code"], exp["reason"]))
         if (d["major"], d["minor"]) != (rq["major"], rq["minor"]):
@@ -525,7 +529,7 @@ def count(ctx, case, outs):
 
 def run(ctx):
     ok = ctx.build()
-    n_rand = 2300 if ctx.quick() else 60000
+    n_rand = 2300 if ctx.quick() else 45000
     cases = fixed_cases()
     for i in range(n_rand):
         cases.append(gen_case(ctx.rng, wild=(i % 3 == 2)))
@@ -549,6 +553,22 @@ def run(ctx):
             nfail += 1
             if len(ctx.violations) < 3:
                 report(ctx, case, fails)
+    # the real Date value (util.http_date is not replaced here): IMF-fixdate, i.e. the model's date parameter
+    # ranges over texts without CR / LF / edge blanks as the theorems assume; judged by the wire oracle only
+    import re
+    fix = re.compile(rb"^(Mon|Tue|Wed|Thu|Fri|Sat|Sun), \d\d (Jan|Feb|Mar|Apr|May|Jun|Jul|Aug|Sep|Oct|Nov|Dec) \d{4} \d\d:\d\d:\d\d GMT$")
+    for case in [c for c in cases if is_wb_conn(c, len(c["reqs"]))][:25]:
+        outs, info = L.run_real(case, date_patch=False)
+        fails = judge_conn(case, outs) if outs and outs[-1]["ended"][0] == 0 else ["well-behaved application did not complete"]
+        for o in outs:
+            d = L.py_decode(b"GET", o["wire"])
+            dates = L.field_values(b"date", d["fields"]) if d else []
+            if len(dates) != 1 or not fix.match(dates[0]):
+                fails.append("Date field is not one IMF-fixdate: %r" % dates)
+        ctx.hist("real_date_runs", "ok" if not fails else "fail")
+        if fails and len(ctx.violations) < 3:
+            ctx.violation(fails[0], {"kind": "connection", "case": case, "failures": fails, "real_date": True,
+                                     "observed_wire": [o["wire"].decode("latin-1") for o in outs]})
     ctx.cov["rule"] = ("connections of 1-3 generated (request, application) pairs + a closing sentinel request, served by the real "
                        "SyncWorker/ThreadWorker/AsyncWorker.handle over a socketpair; request = version x method x Connection forms; "
                        "application = status x headers (benign, hop-by-hop, Content-Length none/exact/shorter) x producer (write() calls then "
